@@ -3,6 +3,7 @@ import SqiProofs.LllCheck
 import SqiProofs.LllDim2
 import SqiProofs.LllGuard
 import SqiProofs.LllGram
+import SqiProofs.LllResp
 /- Property C16 — "Lattice reduction keeps the lattice and reduces it; responses are short".
    Property theorems only (+ non-vacuity examples); lemmas live in SqiProofs/Lll*.lean, models in
    SqiModel/{Lll,Dim2}.lean (tied to the C code by the correspondence / certificate harness tools/props/c16.py). -/
@@ -278,6 +279,27 @@ theorem sample_response_found {p : Int} {rl : Nat} {denom content : Int} {lll : 
     ∃ v ∈ cands, v.isZero = false ∧
       (sampleResponse p rl denom content lll cands).x = ⟨denom, lll.eval v⟩ ∧
       normFrom2Gram (respGram p denom content lll) v < 2 ^ rl := sampleResponse_found h
+
+/-- **`0 < norm < 2^response_length` for an accepted response.**  Hypotheses: `p > 0`, the LLL basis has full rank
+    (guaranteed by the accepted certificate / the entry guard), and the three conditions the C code only `assert`s
+    (NDEBUG builds do not test them): the divisor `denom²·content/2` is positive, the scalar division of the Gram
+    matrix is exact, `2·norm` is even.  Then the form `gram` is positive definite, so the accepted `v ≠ 0` has
+    positive norm.  (The evenness hypothesis cannot be dropped, see the example below.) -/
+theorem sample_response_found_pos {p : Int} {rl : Nat} {denom content : Int} {lll : Mat4} {cands : List Vec4}
+    (hp : 0 < p) (hd : (toM lll).det ≠ 0) (hdg : 0 < div2 (denom * denom * content))
+    (hdiv : ((((lll.transpose).mul (gramP p)).mul lll).scalarDiv (div2 (denom * denom * content))).2 = true)
+    (heven : ∀ w ∈ cands, 2 ∣ (respGram p denom content lll).qfEval w)
+    (h : (sampleResponse p rl denom content lll cands).found = true) :
+    ∃ v ∈ cands, v.isZero = false ∧
+      (sampleResponse p rl denom content lll cands).x = ⟨denom, lll.eval v⟩ ∧
+      0 < normFrom2Gram (respGram p denom content lll) v ∧
+      normFrom2Gram (respGram p denom content lll) v < 2 ^ rl :=
+  SqiProofs.LllResp.sampleResponse_found_pos hp hd hdg hdiv heven h
+
+/-- without the evenness `assert` the code accepts a vector whose computed norm is 0: p = 3, lattice ℤ⁴ with
+    content 2 (not a signer input: there `gram` is twice an integral form), v = e0: `2·norm = 1`, norm = ⌊1/2⌋ = 0. -/
+example : (sampleResponse 3 6 1 2 Mat4.identity [⟨1, 0, 0, 0⟩]).found = true ∧
+    normFrom2Gram (respGram 3 1 2 Mat4.identity) ⟨1, 0, 0, 0⟩ = 0 := by decide
 
 /-- fallback branch: response = first LLL column, norm = gram[0][0]/2, NO test against the bound. -/
 theorem sample_response_fallback {p : Int} {rl : Nat} {denom content : Int} {lll : Mat4} {cands : List Vec4}
